@@ -141,7 +141,7 @@ def public_base(t: T):
     simple = {'at', 'disable', 'enable', 'not_at', 'opt', 'partial', 'plus', 'rematch', 'rep', 'rep_min_max',
               'rep_opt', 'seq', 'sor', 'star', 'star_partial', 'star_strict', 'strict', 'until', 'if_then_else',
               'must', 'bytes', 'require', 'string', 'istring', 'minus', 'rep_min', 'if_must_else', 'star_must',
-              'pad_opt', 'rep_one_min_max'}
+              'pad_opt', 'rep_one_min_max', 'rep_string', 'separated_seq', 'if_then'}
     if n in simple:
         return I(n, *a)
     if n in ('eof', 'bof', 'bol', 'eolf', 'success', 'failure', 'identifier', 'identifier_first', 'identifier_other'):
@@ -271,6 +271,20 @@ def expand_alias(t: T):
         return I('seq', I('star', a[1]), I('opt', a[0], I('star', a[1])))
     if n == 'minus':
         return I('rematch', a[0], I('not_at', a[1], I('eof')))
+    # contrib/rep_string.hpp, contrib/separated_seq.hpp, contrib/if_then.hpp: pure template metaprogramming over string / seq / if_then_else
+    if n == 'rep_string':          # rep_string< N, Cs... > : internal::string< Cs... repeated N times >
+        cnt = a[0][1]
+        return I('string', *(list(a[1:]) * cnt))
+    if n == 'separated_seq':       # separated_seq< S, R1, …, Rn > : internal::seq< R1, S, R2, S, …, Rn >
+        sep, rs = a[0], a[1:]
+        parts = []
+        for k, r in enumerate(rs):
+            if k:
+                parts.append(sep)
+            parts.append(r)
+        return I('seq', *parts)
+    if n == 'if_then' and a:       # if_then< C, T... > : internal::if_then< if_pair< C, seq< T... > > > : if_then_else< C, seq< T... >, internal::if_then<> >
+        return I('if_then_else', a[0], I('seq', *a[1:]), I('if_then'))
     if n == 'star_must':
         return I('star', I('if_must', B(False), *a))
     if n == 'if_must_else':
@@ -519,6 +533,8 @@ def body_of_internal(t: T):
         if len(ty) > 1:
             return body_of_internal(I('control', a[0], I('seq', *ty)))
         return ('control', [a[0], ty[0]])
+    if n == 'if_then' and not a:     # internal::if_then<> : failure (hidden)
+        return ('atom', ['failure'])
     if n == 'if_apply':
         acts = [x[1] for x in a if not is_type(x) and x[0] == 'r']
         return ('ifApply', [ty[0], acts])
@@ -785,6 +801,13 @@ class Grammar:
                 elif w.startswith('ld:'):
                     bases.append(f"tao::pegtl::limit_depth< {w[3:]} >")
                     limit_ids[f"tao::pegtl::limit_depth< {w[3:]} >"] = (1000000 + 2 * int(w[3:]), "maximum parser rule nesting depth exceeded")
+                elif w.startswith('cta:'):
+                    # contrib/control_action.hpp (oracle-only part of C08): hooks around the rule's match(), with / without unwind
+                    bases.append(f"vh::act_ca_unwind< tag, {nd.cpp} >" if w[4:] == '1' else f"vh::act_ca< tag, {nd.cpp} >")
+                elif w.startswith('cb:'):
+                    # contrib/check_bytes.hpp: not in the Lean model (oracle-only part of C18); throws parse_error directly, no raise hook
+                    bases.append(f"tao::pegtl::check_bytes< {w[3:]} >")
+                    limit_ids[f"tao::pegtl::check_bytes< {w[3:]} >"] = (1999998, "maximum allowed rule consumption exceeded")
                 elif w.startswith('lb:'):
                     bases.append(f"tao::pegtl::limit_bytes< {w[3:]} >")
                     limit_ids[f"tao::pegtl::limit_bytes< {w[3:]} >"] = (1000001 + 2 * int(w[3:]), "maximum allowed rule consumption reached")
